@@ -69,18 +69,12 @@ def gen_timer(r, big):
     return "t " + " ".join(ops)
 
 
-STG_OK = ["s0", "s200", "s1000", "s3000", "e0", "e100", "e1000", "e4000", "y"]
+# y = wakes once from inside poll, Y = wakes twice from inside one poll
+STG_OK = ["s0", "s200", "s1000", "s3000", "e0", "e0", "e100", "e1000", "e4000", "y", "y", "Y"]
 
 
-def stages(r, n, never=False, bounded=False):
-    """bounded=True (block_timeout): a stage that wakes from INSIDE poll ('y') is only put before any stage that
-    is woken from another thread.  block_timeout's waker does a blocking send into a sync_channel(1): a wake from
-    inside poll while a token is already buffered blocks the polling thread forever (finding
-    C42-block-timeout-self-wake-deadlock); such a case would hang the check."""
+def stages(r, n, never=False):
     st = [r.choice(STG_OK) for _ in range(n)]
-    if bounded:
-        ys = [x for x in st if x == "y"]
-        st = ys + [x for x in st if x != "y"]
     if never:
         st.append("x")
     return "+".join(st) if st else "-"
@@ -91,11 +85,11 @@ def gen_bt(r):
     v = r.randint(-1000, 1000)
     if k < 0.55:
         # completes long before the (large) duration
-        return "bt %d %d 0 %s" % (r.choice([2000000, 3000000, 5000000]), v, stages(r, r.randint(0, 4), bounded=True))
+        return "bt %d %d 0 %s" % (r.choice([2000000, 3000000, 5000000]), v, stages(r, r.randint(0, 4)))
     if k < 0.90:
         # never completes: Timeout, not before the duration
         return "bt %d %d 0 %s" % (r.choice([0, 1, 100, 1000, 3000, 8000, 15000]), v,
-                                  stages(r, r.randint(0, 2), never=True, bounded=True))
+                                  stages(r, r.randint(0, 2), never=True))
     if k < 0.95:
         # completes only long after the duration
         return "bt %d %d 0 e400000" % (r.choice([500, 2000, 5000]), v)
@@ -147,6 +141,13 @@ def corpus():
         "bt 0 7 0 x",
         "bt 1000 7 0 y+x",
         "bt 25000 7 70000 e3000",                       # C42-timeout-unseen-wake
+        # regression for the fixed finding C42-block-timeout-self-wake-deadlock (7de0553): these hung
+        # (always / when the e0 completer won the race) while the waker did a blocking send
+        "bt 1000 1 0 Y",
+        "bt 3000000 1 0 Y+Y+e0+Y",
+        "bt 100 -627 0 e0+y+x",
+        "bt 15000 236 0 e0+y+x",
+        "bt 3000000 7 0 e0+y+e0+Y+s0+y",
         "bo 9 s1000+e1000+y",
         "bo 9 -",
         "ex s1000+e2000 y+s3000 -",
@@ -171,7 +172,7 @@ def _stage_terms(s):
             out.append("GSleep %d" % (int(w[1:]) * 1000))
         elif w[0] == "e":
             out.append("GExt")
-        elif w[0] == "y":
+        elif w[0] in ("y", "Y"):
             out.append("GYield")
         else:
             out.append("GNever")
